@@ -26,6 +26,7 @@ class UnitResult:
         self.functions = {}      # name -> {success, time_us, rlimit, mode}
         self.errors = []         # list of {fn, msg, line, text}
         self.hashes = {}
+        self.locals = {}
         self.log = []
         self.path = None
         self.wall = 0.0
@@ -103,6 +104,7 @@ def run(unit_name, canary=False, repo=None, rlimit=None, workdir=None, timeout=6
         res.wall = time.time() - t0
         return res
     res.hashes = u.hashes()
+    res.locals = dict(u.locals)
     res.log = list(u.log)
     res.assumption_scan = scan_assumptions(text)
     wd = workdir or tempfile.mkdtemp(prefix="run-", dir=BUILD)
